@@ -475,11 +475,16 @@ def validate_traces(traces, header, label="tr", shard_events=4000, max_procs=Non
     every event was allowed by the specification)."""
     ensure_built()
     # events may carry a weight hint "w" (table events stand for many evaluations)
+    gw = {}
+    for gname, gd in header.get("groups", {}).items():
+        gw[gname] = 40 if gd.get("kind") == "ed" and len(gd.get("Q", "")) > 8 else \
+            max(1, len(gd.get("p", "")) // 40) if gd.get("kind") == "int" else 1
+    pw_ = {pn: gw.get(pd.get("grp"), 1) for pn, pd in header.get("params", {}).items()}
+
     def evw(e):
         if "w" in e:
             return e["w"]
-        name = str(e.get("ps", "")) + str(e.get("grp", ""))
-        return 40 if "Ed25519" in name else 6 if ("1024" in name or "2048" in name or "3072" in name) else 1
+        return pw_.get(e.get("ps"), gw.get(e.get("grp"), 1))
     weight = lambda t: sum(evw(e) for e in t["events"])
     total = sum(weight(t) for t in traces)
     per = max(200, min(shard_events, total // (max_procs or NCPU) + 1))
